@@ -172,21 +172,21 @@ Definition worker_prog_unrepaired : list stmt :=
 (** what each observation (get_fluxes / steady-state run) sees *)
 Definition applied (y0 : option alist) (inits : alist) : alist :=
   match y0 with Some y => set_all y inits | None => inits end.
-Definition expected_obs (p : name) (y0 : option alist) (normalized : bool) (d old : Q) (st : mstate) : list mstate :=
+Definition expected_obs (q : quot_kind) (p : name) (y0 : option alist) (normalized : bool) (d old : Q) (st : mstate) : list mstate :=
   let i := applied y0 (st_inits st) in
-  [mkState (set p (old * (1 + d)) (st_pars st)) i; mkState (set p (old * (1 - d)) (st_pars st)) i]
+  [mkState (set p (disp_up q old d) (st_pars st)) i; mkState (set p (disp_lo q old d) (st_pars st)) i]
   ++ (if normalized then [mkState (st_pars st) i] else []).
 
-Lemma var_prog_pure p y0 nrm d st st' rg :
-  exec_prog p y0 nrm d var_prog_expected st regs0 = Some (st', rg) -> st' = st.
+Lemma var_prog_pure q p y0 nrm d st st' rg :
+  exec_prog q p y0 nrm d var_prog_expected st regs0 = Some (st', rg) -> st' = st.
 Proof.
   unfold var_prog_expected. cbn [exec_prog exec_stmt]. destruct nrm; intros H; injection H as <- _; reflexivity.
 Qed.
 
-Lemma par_prog_restores p nrm d st st' rg :
-  exec_prog p None nrm d par_prog_expected st regs0 = Some (st', rg) ->
+Lemma par_prog_restores q p nrm d st st' rg :
+  exec_prog q p None nrm d par_prog_expected st regs0 = Some (st', rg) ->
   st' = st /\ exists old, get p (st_pars st) = Some old /\ r_old rg = Some old
-                          /\ r_obs rg = expected_obs p None nrm d old st.
+                          /\ r_obs rg = expected_obs q p None nrm d old st.
 Proof.
   destruct st as [pars inits]. unfold par_prog_expected, expected_obs, applied.
   cbn [exec_prog exec_stmt st_pars st_inits regs0 r_old r_saved r_obs r_viewed].
@@ -202,15 +202,15 @@ Proof.
   destruct nrm; intros H; injection H as <- <-; (split; [reflexivity|]); exists old; repeat split; reflexivity.
 Qed.
 
-Lemma exec_prog_app p y0 nrm d a b st rg :
-  exec_prog p y0 nrm d (a ++ b) st rg =
-  match exec_prog p y0 nrm d a st rg with
-  | Some (st', rg') => exec_prog p y0 nrm d b st' rg'
+Lemma exec_prog_app q p y0 nrm d a b st rg :
+  exec_prog q p y0 nrm d (a ++ b) st rg =
+  match exec_prog q p y0 nrm d a st rg with
+  | Some (st', rg') => exec_prog q p y0 nrm d b st' rg'
   | None => None
   end.
 Proof.
   revert st rg. induction a as [|s a IH]; intros st rg; [reflexivity|].
-  cbn [app exec_prog]. destruct (exec_stmt p y0 nrm d s st rg) as [[st' rg']|]; [apply IH|reflexivity].
+  cbn [app exec_prog]. destruct (exec_stmt q p y0 nrm d s st rg) as [[st' rg']|]; [apply IH|reflexivity].
 Qed.
 
 Definition core_prog : list stmt :=
@@ -219,12 +219,12 @@ Definition core_prog : list stmt :=
 
 (** the parameter part of the worker: perturb up, run, perturb down, run, (lazy views re-apply the
     runs' parameters), set back, optional normalisation run *)
-Lemma core_exec p y0 nrm d pars i old sv0 :
+Lemma core_exec q p y0 nrm d pars i old sv0 :
   NoDup (keys pars) -> get p pars = Some old ->
-  exec_prog p y0 nrm d core_prog (mkState pars i) (mkRegs (Some old) sv0 [] [])
+  exec_prog q p y0 nrm d core_prog (mkState pars i) (mkRegs (Some old) sv0 [] [])
   = Some (mkState pars i,
           mkRegs (Some old) sv0
-            ([mkState (set p (old * (1 + d)) pars) i; mkState (set p (old * (1 - d)) pars) i]
+            ([mkState (set p (disp_up q old d) pars) i; mkState (set p (disp_lo q old d) pars) i]
              ++ (if nrm then [mkState pars i] else []))
             (if nrm then [2; 1; 0]%nat else [1; 0]%nat)).
 Proof.
@@ -237,10 +237,10 @@ Proof.
   rewrite has_set, Hh.
   cbn [exec_prog exec_stmt view st_pars st_inits r_old r_saved r_obs r_viewed perturbed app existsb nth_error Nat.eqb orb].
   rewrite set_set.
-  rewrite (set_all_same_keys (set p (old * (1 + d)) pars) (set p (old * (1 - d)) pars))
+  rewrite (set_all_same_keys (set p (disp_up q old d) pars) (set p (disp_lo q old d) pars))
     by (rewrite ?K1; auto).
   cbn [exec_prog exec_stmt view st_pars st_inits r_old r_saved r_obs r_viewed perturbed app existsb nth_error Nat.eqb orb].
-  rewrite (set_all_same_keys (set p (old * (1 - d)) pars) (set p (old * (1 + d)) pars))
+  rewrite (set_all_same_keys (set p (disp_lo q old d) pars) (set p (disp_up q old d) pars))
     by (rewrite ?K1; auto).
   cbn [exec_prog exec_stmt view st_pars st_inits r_old r_saved r_obs r_viewed perturbed app existsb nth_error Nat.eqb orb].
   rewrite has_set, Hh.
@@ -251,11 +251,11 @@ Proof.
   - reflexivity.
 Qed.
 
-Lemma worker_prog_restores p y0 nrm d st st' rg :
+Lemma worker_prog_restores q p y0 nrm d st st' rg :
   NoDup (keys (st_pars st)) -> NoDup (keys (st_inits st)) ->
-  exec_prog p y0 nrm d worker_prog_expected st regs0 = Some (st', rg) ->
+  exec_prog q p y0 nrm d worker_prog_expected st regs0 = Some (st', rg) ->
   st' = st /\ exists old, get p (st_pars st) = Some old /\ r_old rg = Some old
-                          /\ r_obs rg = expected_obs p y0 nrm d old st.
+                          /\ r_obs rg = expected_obs q p y0 nrm d old st.
 Proof.
   destruct st as [pars inits]. cbn [st_pars st_inits]. intros Hnp Hni.
   change worker_prog_expected with ([SReadOld; SSaveY0; SApplyY0] ++ core_prog ++ [SRestoreY0]).
@@ -268,11 +268,11 @@ Proof.
     cbn [exec_prog exec_stmt st_pars st_inits r_old r_saved r_obs r_viewed].
     destruct (forallb (fun kv => has (fst kv) inits) y); [|discriminate].
     cbn [st_pars st_inits r_old r_saved r_obs r_viewed].
-    rewrite exec_prog_app, (core_exec p (Some y) nrm d pars (set_all y inits) old (Some sv) Hnp Hg).
+    rewrite exec_prog_app, (core_exec q p (Some y) nrm d pars (set_all y inits) old (Some sv) Hnp Hg).
     cbn [exec_prog exec_stmt st_pars st_inits r_old r_saved r_obs r_viewed].
     rewrite (restore_y0 y inits sv Hni Hs).
     intros H; injection H as <- <-. split; [reflexivity|]. exists old. repeat split; reflexivity.
-  - rewrite exec_prog_app, (core_exec p None nrm d pars inits old None Hnp Hg).
+  - rewrite exec_prog_app, (core_exec q p None nrm d pars inits old None Hnp Hg).
     cbn [exec_prog exec_stmt st_pars st_inits r_old r_saved r_obs r_viewed].
     intros H; injection H as <- <-. split; [reflexivity|]. exists old. repeat split; reflexivity.
 Qed.
@@ -287,10 +287,10 @@ Proof.
   unfold has in Hk. destruct (get k inits); [eexists; reflexivity|discriminate].
 Qed.
 
-Lemma worker_prog_total p y0 nrm d st old :
+Lemma worker_prog_total q p y0 nrm d st old :
   NoDup (keys (st_pars st)) -> NoDup (keys (st_inits st)) -> get p (st_pars st) = Some old ->
   (forall y, y0 = Some y -> forallb (fun kv => has (fst kv) (st_inits st)) y = true) ->
-  exists rg, exec_prog p y0 nrm d worker_prog_expected st regs0 = Some (st, rg).
+  exists rg, exec_prog q p y0 nrm d worker_prog_expected st regs0 = Some (st, rg).
 Proof.
   destruct st as [pars inits]. cbn [st_pars st_inits]. intros Hnp Hni Hg Hy.
   change worker_prog_expected with ([SReadOld; SSaveY0; SApplyY0] ++ core_prog ++ [SRestoreY0]).
@@ -300,10 +300,10 @@ Proof.
   - specialize (Hy y eq_refl). destruct (save_y0_total y inits Hy) as [sv Hs]. rewrite Hs.
     cbn [exec_prog exec_stmt st_pars st_inits r_old r_saved r_obs r_viewed]. rewrite Hy.
     cbn [st_pars st_inits r_old r_saved r_obs r_viewed]. eexists.
-    rewrite exec_prog_app, (core_exec p (Some y) nrm d pars (set_all y inits) old (Some sv) Hnp Hg).
+    rewrite exec_prog_app, (core_exec q p (Some y) nrm d pars (set_all y inits) old (Some sv) Hnp Hg).
     cbn [exec_prog exec_stmt st_pars st_inits r_old r_saved r_obs r_viewed].
     rewrite (restore_y0 y inits sv Hni Hs). reflexivity.
-  - rewrite exec_prog_app. pose proof (core_exec p None nrm d pars inits old None Hnp Hg) as C.
+  - rewrite exec_prog_app. pose proof (core_exec q p None nrm d pars inits old None Hnp Hg) as C.
     unfold alist in *. rewrite C.
     cbn [exec_prog exec_stmt st_pars st_inits r_old r_saved r_obs r_viewed]. eexists. reflexivity.
 Qed.
@@ -319,7 +319,7 @@ Section Whole.
     par_step facts fluxes d nrm vars p st = Some (st', col) -> st' = st.
   Proof.
     intros Hf. unfold par_step. rewrite Hf.
-    destruct (exec_prog p None nrm d par_prog_expected st regs0) as [[s1 rg]|] eqn:E; [|discriminate].
+    destruct (exec_prog (f_quot facts) p None nrm d par_prog_expected st regs0) as [[s1 rg]|] eqn:E; [|discriminate].
     apply par_prog_restores in E. destruct E as [-> _].
     intros H.
     repeat match type of H with
@@ -353,7 +353,7 @@ Section Whole.
     destruct (worker facts d nrm y0 p st) as [[s1 rg]|] eqn:E; cbn [option_map snd].
     - assert (s1 = st).
       { unfold worker in E. rewrite Hf in E.
-        destruct (worker_prog_restores _ _ _ _ _ _ _ Hnp Hni E) as [-> _]. reflexivity. }
+        destruct (worker_prog_restores _ _ _ _ _ _ _ _ Hnp Hni E) as [-> _]. reflexivity. }
       subst s1. rewrite IH. destruct (opt_map _ rest) as [rs|]; reflexivity.
     - reflexivity.
   Qed.
@@ -366,8 +366,8 @@ Section Whole.
     intros Hf Hnp Hni. revert st' rs. induction scan as [|p rest IH]; intros st' rs; cbn [resp_seq].
     - intros H; injection H as <- <-. split; reflexivity.
     - unfold worker at 1. rewrite Hf.
-      destruct (exec_prog p y0 nrm d worker_prog_expected st regs0) as [[s1 rg]|] eqn:E; [|discriminate].
-      destruct (worker_prog_restores _ _ _ _ _ _ _ Hnp Hni E) as [-> _].
+      destruct (exec_prog (f_quot facts) p y0 nrm d worker_prog_expected st regs0) as [[s1 rg]|] eqn:E; [|discriminate].
+      destruct (worker_prog_restores _ _ _ _ _ _ _ _ Hnp Hni E) as [-> _].
       destruct (resp_seq facts d nrm y0 rest st) as [[s2 rs2]|] eqn:E2; [|discriminate].
       destruct (IH _ _ eq_refl) as [-> Hm].
       intros H; injection H as <- <-. split; [reflexivity|]. cbn [map fst]. f_equal. exact Hm.
@@ -378,7 +378,7 @@ End Whole.
 Lemma unrepaired_worker_changes_inits :
   exists p y0 st st' rg,
     NoDup (keys (st_pars st)) /\ NoDup (keys (st_inits st)) /\
-    exec_prog p (Some y0) true (1 # 10000) worker_prog_unrepaired st regs0 = Some (st', rg) /\
+    exec_prog QuotCentralRel p (Some y0) true (1 # 10000) worker_prog_unrepaired st regs0 = Some (st', rg) /\
     st_pars st' = st_pars st /\ st_inits st' <> st_inits st.
 Proof.
   exists 200%N, [(100%N, 5)], (mkState [(200%N, 4); (201%N, 2)] [(100%N, 1)]).
@@ -390,8 +390,8 @@ Qed.
 
 (** the same statements for a fact record whose programs are the expected ones *)
 Lemma var_prog_pure_facts facts : f_var_prog facts = var_prog_expected ->
-  forall p y0 nrm d st st' rg,
-    exec_prog p y0 nrm d (f_var_prog facts) st regs0 = Some (st', rg) -> st' = st.
+  forall q p y0 nrm d st st' rg,
+    exec_prog q p y0 nrm d (f_var_prog facts) st regs0 = Some (st', rg) -> st' = st.
 Proof. intros ->. exact var_prog_pure. Qed.
 
 Lemma worker_restores_facts facts : f_worker_prog facts = worker_prog_expected ->
@@ -401,13 +401,14 @@ Lemma worker_restores_facts facts : f_worker_prog facts = worker_prog_expected -
     st' = st /\ exists old, get p (st_pars st) = Some old /\ r_old rg = Some old /\
       r_obs rg =
         (let i := match y0 with Some y => set_all y (st_inits st) | None => st_inits st end in
-         [mkState (set p (old * (1 + d)) (st_pars st)) i; mkState (set p (old * (1 - d)) (st_pars st)) i]
+         [mkState (set p (disp_up (f_quot facts) old d) (st_pars st)) i;
+          mkState (set p (disp_lo (f_quot facts) old d) (st_pars st)) i]
          ++ (if nrm then [mkState (st_pars st) i] else [])).
-Proof. unfold worker. intros ->. exact worker_prog_restores. Qed.
+Proof. unfold worker. intros ->. exact (worker_prog_restores (f_quot facts)). Qed.
 
 Lemma worker_total_facts facts : f_worker_prog facts = worker_prog_expected ->
   forall p y0 nrm d st old,
     NoDup (keys (st_pars st)) -> NoDup (keys (st_inits st)) -> get p (st_pars st) = Some old ->
     (forall y, y0 = Some y -> forallb (fun kv => has (fst kv) (st_inits st)) y = true) ->
     exists rg, worker facts d nrm y0 p st = Some (st, rg).
-Proof. unfold worker. intros ->. exact worker_prog_total. Qed.
+Proof. unfold worker. intros ->. exact (worker_prog_total (f_quot facts)). Qed.
